@@ -113,6 +113,16 @@ fn check<C: Cm>(case: &Case) -> PResult {
     ensure_eq!(ch, exp_chain, format!("chain/{n_}"), "chain()");
     ensure!(donec, format!("iter_terminates/{n_}"), "chain() does not terminate properly");
 
+    // chaining a slice with itself / with an overlapping window of the same storage
+    let twice: Vec<u8> = codes.iter().chain(codes.iter()).copied().collect();
+    let got: Vec<u8> = no_panic(&format!("chain_panic/{n_}"), "s.chain(s)", || sl.chain(sl).take(2 * n + 2).map(|x| x.to_bits()).collect())?;
+    ensure_eq!(got, twice, format!("chain_self/{n_}"), "s.chain(s)");
+    if n >= 2 {
+        let (l, r) = (&sl[..n - 1], &sl[1..]);
+        let exp: Vec<u8> = codes[..n - 1].iter().chain(codes[1..].iter()).copied().collect();
+        let got: Vec<u8> = l.chain(r).take(2 * n + 2).map(|x| x.to_bits()).collect();
+        ensure_eq!(got, exp, format!("chain_overlap/{n_}"), "s[..n-1].chain(&s[1..])");
+    }
     // every other way of consuming the iterators agrees with next()
     check_iter_laws(&|| sl.iter(), &|x: C| x.to_bits(), codes, &format!("iter_laws/{n_}"), &case.widths)?;
     check_iter_laws(&|| sl.into_iter(), &|x: C| x.to_bits(), codes, &format!("into_iter_laws/{n_}"), &case.widths)?;
